@@ -157,6 +157,12 @@ class Core(object):
         if not self.connected:
             raise OSError(107, "Transport endpoint is not connected")
         n = len(data)
+        if self.writecap == "none":
+            # a transport that does not report a count (the repository's own test fakes behave like this): it took everything
+            self.write_calls += 1
+            self.written += bytes(data)
+            self.sim.host_bytes(bytes(data), actor)
+            return None
         if self.writecap is not None:
             cap = self.writecap(self.write_calls, n, self.rng) if callable(self.writecap) else self.writecap
             n = max(0, min(n, cap))
